@@ -3,8 +3,8 @@
    extract_block, bt_* are TRANSLATED from aiocoap/message.py and aiocoap/optiontypes.py on every check (Gen/block_kernels.v);
    run / block1_loop / complete_by_requesting_block2 (Model/C05.v) model protocol.py BlockwiseRequest._run and
    _complete_by_requesting_block2; serve_ref (Model/C05Server.v) is the RFC 7959 reference server; serve_script is the server that
-   answers with an arbitrary given list of responses.  bsize szx = 2^(szx+4).  Size exponent 7 (BERT) is not covered (tier B). *)
-From Verif Require Import Lib.Py Lib.PyLemmas Lib.Tactics Gen.block_kernels Model.C05 Model.C05Server Proofs.C05.
+   answers with an arbitrary given list of responses.  bsize szx = 2^(szx+4).  Theorems 1-10 are about the regular size exponents 0..6, theorems 11-14 about size exponent 7 (BERT, RFC 8323). *)
+From Verif Require Import Lib.Py Lib.PyLemmas Lib.Tactics Gen.block_kernels Model.C05 Model.C05Server Model.C05Retry Proofs.C05 Proofs.C05Retry Proofs.C05Bert.
 Open Scope Z_scope.
 
 (* 1. _extract_block partitions the body: block NUM is exactly the bytes at offset NUM*size, it has the full size and the more-flag
@@ -28,7 +28,7 @@ Print Assumptions C05_extract_blocks_partition.
 Theorem C05_block1_wire_consistent : forall (S : Type) (serve : S -> request -> S * sresult),
   (forall s rq s' r, req_wf rq = true -> serve s rq = (s', SResp r) -> resp_wf r = true) ->
   forall cfg fuel s s' tr o,
-  0 <= c_mbse cfg <= 6 -> 0 <= c_mps cfg -> bt_wf (c_block2 cfg) = true ->
+  0 <= c_mbse cfg <= 6 -> 0 <= c_mps cfg -> bt_wf6 (c_block2 cfg) = true ->
   run serve fuel s cfg = (s', tr, o) -> wire_ok cfg tr.
 Proof. exact @run_wire_ok. Qed.
 Print Assumptions C05_block1_wire_consistent.
@@ -115,9 +115,120 @@ Theorem C05_block1_transport_failure : forall (S : Type) (serve : S -> request -
 Proof. exact @block1_transport_failure. Qed.
 Print Assumptions C05_block1_transport_failure.
 
+(* 9. Loss and duplication of the individual block exchanges.  The block-wise client runs on the CoAP message layer: a lost request or
+      response is retransmitted with the SAME message id; the server's message layer passes the first copy of a request to the
+      application and answers further copies from its store (deduplication: RFC 7252 4.5, property C04 for aiocoap's own server); the
+      client's sub-request is completed by the first copy of the response, later copies find no exchange (C02/C10).  Model/C05Retry.v
+      puts ANY application-level server behind exactly this layer (serve_retried), driven by an arbitrary schedule of how many extra copies
+      of every request reach the server and how many extra copies of every response reach the client.
+      For every server, request, fuel and schedule without a dead exchange: the transcript (every request with its block options and
+      payload), the outcome and the final state of the application-level server are those of the run in which every message is
+      delivered exactly once. *)
+Theorem C05_retried_exchanges_invisible : forall (S : Type) (serve : S -> request -> S * sresult) cfg fuel s sched s' tr o,
+  forallb is_delivered sched = true ->
+  run serve fuel s cfg = (s', tr, o) ->
+  exists st', run (serve_retried serve) fuel (rinit s sched) cfg = (st', tr, o) /\ r_inner st' = s'.
+Proof. exact @retried_run_unchanged. Qed.
+Print Assumptions C05_retried_exchanges_invisible.
+
+(* ... all copies of a response that reach the client are the same response (so it is immaterial which one arrives first) *)
+Theorem C05_retried_copies_identical : forall r n dr,
+  Forall (eq r) (arriving (repeat r (Datatypes.S n)) dr) /\ hd SFail (arriving (repeat r (Datatypes.S n)) dr) = r.
+Proof. exact arriving_identical. Qed.
+Print Assumptions C05_retried_copies_identical.
+
+(* ... hence theorem 3 over the lossy / duplicating network: exactly one reassembled body, the right one, and the right representation *)
+Theorem C05_transfer_correct_under_retries : forall scf e rep, honest_cfg scf e rep ->
+  forall cfg, 0 <= c_mbse cfg <= 6 -> 0 <= c_mps cfg ->
+  (c_block2 cfg = None \/ exists m2 s2, c_block2 cfg = Some (0, m2, s2) /\ 0 <= s2 <= 6) ->
+  forall sched, forallb is_delivered sched = true ->
+  forall fuel, (Z.to_nat (blen (c_body cfg)) + Z.to_nat (blen rep) + 1 < fuel)%nat ->
+  exists st tr r, run (serve_retried (serve_ref scf)) fuel (rinit sstate0 sched) cfg = (st, tr, Done r) /\
+    sv_bodies (r_inner st) = [c_body cfg] /\ rs_payload r = rep /\ rs_etag r = e /\ is_successful (rs_code r) = true /\
+    rs_block1 r = None /\ wire_ok cfg tr.
+Proof. exact transfer_correct_under_retries_lemma. Qed.
+Print Assumptions C05_transfer_correct_under_retries.
+
+(* ... an exchange that dies (retransmissions exhausted) fails the sub-request — and with theorem 7 the request — and does not touch the
+   application-level server when it was the request that got lost *)
+Theorem C05_retried_dead_exchange : forall (S : Type) (serve : S -> request -> S * sresult) st rq arrived rest,
+  r_sched st = Dead arrived :: rest ->
+  snd (serve_retried serve st rq) = SFail /\
+  (arrived = false -> r_inner (fst (serve_retried serve st rq)) = r_inner st).
+Proof. exact @retried_dead. Qed.
+Print Assumptions C05_retried_dead_exchange.
+
+(* ... and the guarantee really is the deduplicating layer's (C04), not the block-wise code's: without it a single duplicated datagram
+   makes the reference server act on the same request body twice. *)
+Theorem C05_without_dedup_body_twice_refuted : exists scf cfg st tr r,
+  honest_cfg scf (Some 10) (mkbody 5 1) /\
+  run (serve_nodedup (serve_ref scf)) 5 (sstate0, [Delivered 1 0]) cfg = (st, tr, Done r) /\
+  sv_bodies (fst st) = [c_body cfg; c_body cfg] /\ length tr = 1%nat.
+Proof. exact without_dedup_body_twice_witness. Qed.
+Print Assumptions C05_without_dedup_body_twice_refuted.
+
+(* 10. OBSERVATION (the request ends loudly, so C05 holds; the error is an accident): a non-zero Observe option on the acknowledgement of a
+       non-final Block1 block ends the request with AttributeError (protocol.py:986 `blockrequest.observe.cancel()`; the attribute is
+       called `observation`) instead of cancelling the erroneous observation and continuing as the comment there intends. *)
+Theorem C05_early_observe_ends_request : forall (S : Type) (serve : S -> request -> S * sresult) cfg f s cursor size_exp mbse rq s1 resp cb b1,
+  block1_request cfg cursor size_exp = Ok rq -> serve s rq = (s1, SResp resp) ->
+  rq_block1 rq = Some cb -> rs_block1 resp = Some b1 -> bt_num b1 = bt_num cb -> bt_more cb = true -> rs_observe resp = true ->
+  block1_loop serve (Datatypes.S f) s cfg cursor size_exp mbse = (s1, [rq], Err AttributeError).
+Proof. exact @block1_early_observe_lemma. Qed.
+Print Assumptions C05_early_observe_ends_request.
+
+(* ---- tier B: size exponent 7 / BERT for remotes on reliable transports (maximum_block_size_exp = 7; a message carries
+        bert_size mps = 1024 * (maximum_payload_size / 1024) bytes; NUM counts 1024-byte blocks) *)
+
+(* 11. Theorem 1 for size exponent 7. *)
+Theorem C05_extract_blocks_partition_bert : forall body mbs n, 1024 <= mbs -> 0 <= n ->
+  (blen body <= n * 1024 -> extract_block body n 7 mbs = Raise BadRequest) /\
+  (n * 1024 < blen body -> exists pl more,
+      extract_block body n 7 mbs = Ok (pl, (n, more, 7)) /\
+      bto body (n * 1024) ++ pl = bto body (n * 1024 + blen pl) /\
+      (more = true -> blen pl = bert_size mbs /\ n * 1024 + bert_size mbs < blen body) /\
+      (more = false -> 0 < blen pl <= bert_size mbs /\ n * 1024 + blen pl = blen body)).
+Proof. exact extract_blocks_partition_bert_lemma. Qed.
+Print Assumptions C05_extract_blocks_partition_bert.
+
+(* 12. Theorem 2 for size exponent 7: against ANY server whose acknowledgements of BERT blocks keep exponent 7, the requests are one
+       unfragmented request (body not longer than maximum_payload_size) or a BERT chain: NUM * 1024 = bytes sent so far, payload = the next
+       bytes, full BERT size and more-flag exactly on non-final messages, Size1 on the first only.  (When an acknowledgement LOWERS the
+       exponent from 7 the statement is false of the code: theorem 14.) *)
+Theorem C05_block1_wire_consistent_bert : forall (S : Type) (serve : S -> request -> S * sresult),
+  (forall s rq s' r b n m, rq_block1 rq = Some (n, m, 7) -> serve s rq = (s', SResp r) -> rs_block1 r = Some b -> 7 <= bt_szx b) ->
+  forall cfg fuel s s' tr o, c_mbse cfg = 7 -> 1024 <= c_mps cfg ->
+  run serve fuel s cfg = (s', tr, o) -> bert_wire_ok cfg tr.
+Proof. exact @run_bert_wire_ok. Qed.
+Print Assumptions C05_block1_wire_consistent_bert.
+
+(* 13. Theorem 3 for size exponent 7: client x BERT reference server that keeps exponent 7 (any BERT message size of the server, atomic
+       or stateless acknowledgement), every body, every representation: terminates with a 2.xx response, the server holds exactly the
+       body, the caller exactly the representation. *)
+Theorem C05_transfer_correct_bert : forall scf e rep, honest_bert_cfg scf e rep ->
+  forall cfg, c_mbse cfg = 7 -> 1024 <= c_mps cfg -> c_block2 cfg = None ->
+  forall fuel, (Z.to_nat (blen (c_body cfg)) + Z.to_nat (blen rep) + 1 < fuel)%nat ->
+  exists st tr r, run (serve_ref scf) fuel sstate0 cfg = (st, tr, Done r) /\
+    sv_bodies st = [c_body cfg] /\ rs_payload r = rep /\ rs_etag r = e /\ is_successful (rs_code r) = true /\
+    rs_block1 r = None /\ bert_wire_ok cfg tr.
+Proof. exact transfer_correct_bert_lemma. Qed.
+Print Assumptions C05_transfer_correct_bert.
+
+(* 14. KNOWN FINDING (open), carried by the model: a conforming BERT server that answers the first BERT message (2048 bytes) with size
+       exponent 6 makes the client continue at NUM 4 = offset 4096 instead of 2048 (protocol.py:963-965 doubles the cursor for the step
+       7 -> 6 although both count 1024-byte blocks); the server answers 4.08. *)
+Theorem C05_bert_reduction_refuted : exists scf cfg tr o,
+  s_mis scf = None /\ c_mbse cfg = 7 /\
+  (let '(_, tr', o') := run (serve_ref scf) 10 sstate0 cfg in (tr', o')) = (tr, o) /\
+  map rq_block1 tr = [Some (0, true, 7); Some (4, false, 6)] /\
+  blen (rq_payload (hd {| rq_block1 := None; rq_block2 := None; rq_size1 := None; rq_payload := [] |} tr)) = 2048 /\
+  (exists r, o = Done r /\ rs_code r = REQUEST_ENTITY_INCOMPLETE).
+Proof. exact bert_reduction_witness. Qed.
+Print Assumptions C05_bert_reduction_refuted.
+
 (* ---- non-vacuity: the hypotheses are satisfiable by concrete non-trivial instances *)
 Definition ex_scf : scfg := {| s_policy1 := [2; 0]; s_policy2 := [5; 1]; s_reps := [(Some 10, mkbody 300 1)]; s_rep_at := [];
-                               s_atomic := true; s_mis := None |}.
+                               s_atomic := true; s_mis := None; s_bert := 0 |}.
 Definition ex_cfg : ccfg := {| c_body := mkbody 1200 3; c_mps := 1124; c_mbse := 6; c_block2 := None |}.
 Example ex_honest : honest_cfg ex_scf (Some 10) (mkbody 300 1).
 Proof. split; try reflexivity; repeat constructor; lia. Qed.
@@ -132,7 +243,7 @@ Proof. apply serve_ref_wf; try reflexivity; repeat constructor; lia. Qed.
 (* a chain of three blocks of a tagged representation, assembled *)
 Definition ex_rep := mkbody 40 9.
 Definition ex_block (n : Z) (m : bool) : response :=
-  {| rs_code := 69; rs_block1 := None; rs_block2 := Some (n, m, 0); rs_etag := Some 7; rs_payload := bslice ex_rep (n * 16) (n * 16 + 16); rs_maxexp := 6 |}.
+  {| rs_code := 69; rs_block1 := None; rs_block2 := Some (n, m, 0); rs_etag := Some 7; rs_payload := bslice ex_rep (n * 16) (n * 16 + 16); rs_maxexp := 6; rs_observe := false |}.
 Example ex_block2_premises :
   NoDup (map fst [(7, ex_rep)]) /\ (forall x, In (SResp x) [SResp (ex_block 1 true); SResp (ex_block 2 false)] -> slice_of [(7, ex_rep)] x) /\
   exists tr r, complete_by_requesting_block2 serve_script 5 [SResp (ex_block 1 true); SResp (ex_block 2 false)]
@@ -145,12 +256,26 @@ Proof.
 Qed.
 (* a violated acknowledgement: premises of theorem 7 on a concrete exchange *)
 Example ex_block1_error : exists rq, block1_request ex_cfg 0 6 = Ok rq /\ rq_block1 rq = Some (0, true, 6) /\
-  block1_loop serve_script 3 [SResp {| rs_code := 95; rs_block1 := Some (1, true, 6); rs_block2 := None; rs_etag := None; rs_payload := []; rs_maxexp := 6 |}]
+  block1_loop serve_script 3 [SResp {| rs_code := 95; rs_block1 := Some (1, true, 6); rs_block2 := None; rs_etag := None; rs_payload := []; rs_maxexp := 6; rs_observe := false |}]
      ex_cfg 0 6 6 = ([], [rq], Err UnexpectedBlock1Option).
 Proof. eexists. split; [vm_compute; reflexivity|]. split; vm_compute; reflexivity. Qed.
 (* premises of theorem 4b: the formerly accepted response 2.05 Block2 2/0/512 is now refused *)
 Example ex_first_block_refused :
-  run_script [SResp {| rs_code := 69; rs_block1 := None; rs_block2 := Some (2, false, 5); rs_etag := Some 4; rs_payload := mkbody 87 148; rs_maxexp := 6 |}]
+  run_script [SResp {| rs_code := 69; rs_block1 := None; rs_block2 := Some (2, false, 5); rs_etag := Some 4; rs_payload := mkbody 87 148; rs_maxexp := 6; rs_observe := false |}]
              {| c_body := []; c_mps := 1124; c_mbse := 5; c_block2 := None |}
   = ([{| rq_block1 := None; rq_block2 := None; rq_size1 := None; rq_payload := [] |}], Err UnexpectedBlock2).
+Proof. vm_compute. reflexivity. Qed.
+(* a schedule with duplicated requests and responses on every exchange: same transcript and body as ex_transfer *)
+Example ex_retried : (let '(st, tr, o) := run (serve_retried (serve_ref ex_scf)) 2000 (rinit sstate0 [Delivered 2 1; Delivered 0 3; Delivered 4 0; Delivered 1 1]) ex_cfg in
+  (length tr, map rq_block1 (firstn 3 tr), beqb (hd [] (sv_bodies (r_inner st))) (mkbody 1200 3), length (sv_bodies (r_inner st)), match o with Done r => blen (rs_payload r) | _ => -1 end))
+  = (18%nat, [Some (0, true, 6); Some (16, true, 2); Some (68, true, 0)], true, 1%nat, 300).
+Proof. vm_compute. reflexivity. Qed.
+(* BERT: a server sending 2 blocks per message, exponent 7 kept; 5000-byte body in messages of 2048, 3000-byte representation *)
+Definition ex_bert_scf : scfg := {| s_policy1 := [7]; s_policy2 := [7]; s_reps := [(Some 10, mkbody 3000 1)]; s_rep_at := [];
+                                    s_atomic := true; s_mis := None; s_bert := 2 |}.
+Example ex_bert_honest : honest_bert_cfg ex_bert_scf (Some 10) (mkbody 3000 1).
+Proof. split; try reflexivity; intros k; unfold pol; cbn [ex_bert_scf s_policy1 s_policy2 last]; destruct (Z.to_nat k) as [|[|?]]; cbn; lia. Qed.
+Example ex_bert_transfer : (let '(st, tr, o) := run (serve_ref ex_bert_scf) 100 sstate0 {| c_body := mkbody 5000 3; c_mps := 2048; c_mbse := 7; c_block2 := None |} in
+  (map (fun r => (rq_block1 r, rq_block2 r, blen (rq_payload r))) tr, beqb (hd [] (sv_bodies st)) (mkbody 5000 3), match o with Done r => blen (rs_payload r) | _ => -1 end))
+  = ([(Some (0, true, 7), None, 2048); (Some (2, true, 7), None, 2048); (Some (4, false, 7), None, 904); (None, Some (2, false, 7), 0)], true, 3000).
 Proof. vm_compute. reflexivity. Qed.
